@@ -366,6 +366,7 @@ func (vc *VC) mapUpdate(st *State, x *ssa.MapUpdate) {
 		return
 	}
 	vc.oblige(st, "nilmap", "", not(eq(m.S, "0")), "assignment to entry in nil map")
+	vc.recordMapKey(m.S, k)
 	name, srt, h := vc.mapHeap(st, x.Map.Type(), ".has", "Bool")
 	vc.heapSet(st, name, srt, store(h, m.S, store(sel(h, m.S), k.S, "true")))
 	v.T = vt
